@@ -2,6 +2,7 @@ import Lean.Data.Json
 import NGF.Model.RefGrant
 import NGF.Model.RefGrantJudge
 import NGF.Model.PipelineRefsTie
+import NGF.Model.PipelineTlsRefs
 import NGF.Model.Proto
 /-
 Driver entry for C06.  Every input line is one JSON object `{"k":mode,"id":..,"in":{…},"obs":{…}}` as
@@ -229,9 +230,15 @@ def modelE2E (i : Json) (obsJ : Json) : Except String Json := do
         if l.protocol != "HTTPS" then Json.str "n/a" else
         match l.certs with
         | [] => Json.str "n/a"
-        | c :: _ => match certRefVerdict o.grants g.ns { ns := c.ns, name := c.name } with
-          | .refNotPermitted => Json.str "RefNotPermitted"
-          | .resolve ns name => Json.str s!"resolve {ns}/{name}"
+        | c :: _ =>
+          -- the refined TLS pipeline model (Model/PipelineTlsRefs: `Tls.secretRefAllowed` on the projected grants) must give
+          -- the verdict of the resolver model (`certRefVerdict_conv` in Props/C06Certs, executed here on the real cluster)
+          let cns := c.ns.getD g.ns
+          let refinedRefused := cns != g.ns &&
+            !NGF.Tls.secretRefAllowed (o.grants.map NGF.PipelineTlsRefs.convGrant) g.ns.toList cns.toList c.name.toList
+          match certRefVerdict o.grants g.ns { ns := c.ns, name := c.name } with
+          | .refNotPermitted => if refinedRefused then Json.str "RefNotPermitted" else Json.str "mismatch refined-model-permits"
+          | .resolve ns name => if refinedRefused then Json.str "mismatch refined-model-refuses" else Json.str s!"resolve {ns}/{name}"
   let groups := b.groups.map fun g =>
     match b.groutes.find? fun gr => some gr.kind == g.kind && gr.ns == g.ns && gr.name == g.name with
     | none => Json.null
